@@ -255,14 +255,15 @@ func (ix *BM25SearchIndex) Add(id uint32, text string) error {
 // Thread-safety: Uses read lock for validation, write lock for modification
 func (ix *BM25SearchIndex) Remove(id uint32) error {
 	// ════════════════════════════════════════════════════════════════════════
-	// STEP 1: CHECK EXISTENCE (READ LOCK - CHEAPER)
+	// STEP 1: CHECK EXISTENCE (under the write lock: check and mark must be one atomic step,
+	// otherwise a concurrent Remove+Flush between them leaves a tombstone for an id that is gone)
 	// ════════════════════════════════════════════════════════════════════════
-	ix.mu.RLock()
+	ix.mu.Lock()
+	defer ix.mu.Unlock()
 	_, exists := ix.docTokens[id]
 	alreadyDeleted := ix.deletedDocs.Contains(id)
-	ix.mu.RUnlock()
 
-	// Fast-fail validation outside of write lock
+	// Fast-fail validation
 	if !exists {
 		return nil // Document doesn't exist, nothing to do
 	}
@@ -271,11 +272,9 @@ func (ix *BM25SearchIndex) Remove(id uint32) error {
 	}
 
 	// ════════════════════════════════════════════════════════════════════════
-	// STEP 2: MARK AS DELETED (WRITE LOCK - ONLY FOR BITMAP UPDATE)
+	// STEP 2: MARK AS DELETED (same write-locked region)
 	// ════════════════════════════════════════════════════════════════════════
-	ix.mu.Lock()
 	ix.deletedDocs.Add(id)
-	ix.mu.Unlock()
 
 	return nil
 }
